@@ -4,6 +4,7 @@ import S2T.Spec.Tables
 import S2T.Gen.Tables
 import S2T.Gen.HtmlSkip
 import S2T.Lemmas.TablesEpub
+import S2T.Lemmas.TablesOds
 namespace S2T.Drv.C13
 open Lean S2T.Drv S2T.Tables
 open S2T.HtmlSkip (Str)
@@ -214,7 +215,8 @@ def ods (j : Json) : Except String Json := do
       let p ← c.getArr?
       return ((← (← elemJ p 0).getNat?), (← parseVal (← elemJ p 1)))) (← elemJ a 1)
     return (rep, cells)) (← j.getObjVal? "rows")
-  return Json.mkObj [("data", vgridJson (Ods.sheetData rows))]
+  return Json.mkObj [("data", vgridJson (Ods.sheetData S2T.Gen.Tables.odsCaps rows)),
+    ("nogap", Json.bool (Ods.noGapRows S2T.Gen.Tables.odsCaps rows))]
 
 def xls (j : Json) : Except String Json := do
   let cells ← parseList (parseList (fun c => do
